@@ -99,6 +99,52 @@ def spec(mode, s, d, sa, da):
     return None
 
 
+def spec_nonsep(mode, s3, d3, sa, da):
+    """the four non-separable modes (Hue, Saturation, Color, Luminosity) as Skia / W3C define them on premultiplied colours:
+    exact rationals; returns the three colour channels or None for other modes"""
+    m = MODES[mode]
+    if m not in ("Hue", "Saturation", "Color", "Luminosity"):
+        return None
+    lum = lambda c: c[0] * Fr(30, 100) + c[1] * Fr(59, 100) + c[2] * Fr(11, 100)
+    sat = lambda c: max(c) - min(c)
+
+    def set_sat(c, s_):
+        mn, mx = min(c), max(c)
+        if mx == mn:
+            return [Fr(0)] * 3
+        return [(v - mn) * s_ / (mx - mn) for v in c]
+
+    def set_lum(c, l):
+        diff = l - lum(c)
+        return [v + diff for v in c]
+
+    def clip_color(c, a):
+        mn, mx, l = min(c), max(c), lum(c)
+        out = []
+        for v in c:
+            if mn < 0 and l != mn:
+                v = l + (v - l) * l / (l - mn)
+            if mx > a and mx != l:
+                v = l + (v - l) * (a - l) / (mx - l)
+            out.append(max(v, Fr(0)))
+        return out
+
+    if m == "Hue":
+        c = [v * sa for v in s3]
+        c = set_sat(c, sat(d3) * sa); c = set_lum(c, lum(d3) * sa)
+    elif m == "Saturation":
+        c = [v * sa for v in d3]
+        c = set_sat(c, sat(s3) * da); c = set_lum(c, lum(d3) * sa)
+    elif m == "Color":
+        c = [v * da for v in s3]
+        c = set_lum(c, lum(d3) * sa)
+    else:
+        c = [v * sa for v in d3]
+        c = set_lum(c, lum(s3) * da)
+    c = clip_color(c, sa * da)
+    return [s3[i] * (1 - da) + d3[i] * (1 - sa) + c[i] for i in range(3)]
+
+
 def spec_alpha(mode, sa, da):
     m = MODES[mode]
     if m in ("Clear",): return Fr(0)
